@@ -48,9 +48,14 @@ def add_late(sc, rng):
                 if rng.random() < 0.4 and [kind, e] not in sc["provs"][p]:
                     sc["provs"][p].append([kind, e])
                     sc["tbl"].append([p, kind, e, [], {"a": [], "r": None}])
-    if rng.random() < 0.3 and np_ > 3:
-        # value-object listeners: some distinct listener objects compare and hash equal
+    if rng.random() < 0.45 and np_ > 3:
+        # value-object listeners: some distinct listener objects compare and hash equal; one late listener
+        # always has an equal twin (attached at construction or in another add_listener call)
         sc["eqgroups"] = {str(p): rng.randint(1, 2) for p in range(2, np_)}
+        if late:
+            p = late[0]
+            q = rng.choice([x for x in range(2, np_) if x != p])
+            sc["eqgroups"][str(p)] = sc["eqgroups"][str(q)]
     ops = list(sc["ops"])
     for p in late:
         pos = rng.randint(1, len(ops))
@@ -160,28 +165,179 @@ def copy_attach_probe(sc):
         def after_go(self):
             self.calls += 1
     bad = []
+    via = sc.get("via", "send")
+
+    def fire(m):
+        # the same event through one of the interchangeable entry points
+        if via == "attr":
+            return m.go()
+        if via == "events":
+            return [e for e in m.events if str(e) == "go"][0]()
+        if via == "allowed":
+            return [e for e in m.allowed_events if str(e) == "go"][0]()
+        return m.send("go")
     with warnings.catch_warnings():
         warnings.simplefilter("ignore")
         a = M(listeners=[L()])
-        if rng.random() < 0.5:
-            a.send("go")
+        if rng.random() < 0.5 or via != "send":
+            fire(a)
         b_ = (copy.copy if sc["first"] == "copy" else copy.deepcopy)(a)
         x = L()
         with_x, without = (b_, a) if sc["side"] == "copy" else (a, b_)
         with_x.add_listener(x)
         later = [(copy.deepcopy if rng.random() < 0.7 else copy.copy)(without) for _ in range(rng.randint(1, 2))]
         for m in [without] + later:
-            m.send("go")
-            m.send("go")
+            fire(m)
+            fire(m)
         if x.calls:
             bad.append(f"a listener attached to one machine only was invoked {x.calls} time(s) by the other / its copies")
-        with_x.send("go")
+        fire(with_x)
         if x.calls != 1:
             bad.append(f"the machine it was attached to invoked it {x.calls} time(s) for one event")
     return {"probe": "copy_attach", "bad": bad}
 
 
+def expr_late_probe(sc):
+    """a guard written as an expression over names the model has at construction; a listener attached later
+    has the same names: the guard must hold on the late listener's values too"""
+    import random
+    from statemachine import State, StateMachine
+    from statemachine.exceptions import TransitionNotAllowed
+    rng = random.Random(sc["seed"])
+    text = sc["text"]
+    names = ["level", "ready", "blocked"]
+    bad = []
+    for _ in range(6):
+        vm = {"level": rng.choice([0, 1, 2, 3]), "ready": rng.choice([True, False, 1, 0]), "blocked": rng.choice([True, False, 0, 2])}
+        vl = {"level": rng.choice([0, 1, 2, 3]), "ready": rng.choice([True, False, 1, 0]), "blocked": rng.choice([True, False, 0, 2])}
+
+        class M(StateMachine):
+            a = State(initial=True)
+            b = State()
+            go = a.to(b, **{sc["kind"]: text}) | b.to(a)
+        Mdl = type("Mdl", (), dict(vm, state=None))
+        Late = type("Late", (), dict(vl))
+        with warnings.catch_warnings():
+            warnings.simplefilter("ignore")
+            sm = M(Mdl())
+            if sc["copy_first"]:
+                sm = copy.deepcopy(sm)
+            sm.add_listener(Late())
+            if sc["copy_after"]:
+                sm = copy.deepcopy(sm)
+            try:
+                sm.send("go")
+                fired = True
+            except TransitionNotAllowed:
+                fired = False
+            except Exception as e:  # noqa: BLE001
+                fired = repr(e)
+        want_value = sc["kind"] == "cond"
+
+        def entry(vals):
+            return bool(eval(text, {"__builtins__": {}}, dict(vals))) == want_value  # noqa: S307
+        if sc["copy_after"]:
+            # the copy resolves model and listener together: one entry over the conjunction of the providers of
+            # each name (what a machine constructed with that listener does; see known finding D25)
+            expect = entry({n: (vm[n] and vl[n]) for n in names})
+        else:
+            expect = entry(vm) and entry(vl)
+        if fired != expect:
+            bad.append(f"{sc['kind']}={text!r}: model {vm}, late listener {vl}: fired={fired}, expected {expect}")
+    return {"probe": "expr_late", "bad": bad[:3]}
+
+
+def event_name_probe(sc):
+    """a callback name that is also an event of the machine: the event is sent, and every other provider of
+    that name (model, constructor listeners, late listeners - also after a copy) is called as well"""
+    from statemachine import State, StateMachine
+    calls = []
+
+    class Mdl:
+        def __init__(self):
+            self.state = None
+
+        def finish(self):
+            calls.append("model")
+
+    class L:
+        def __init__(self, tag):
+            self.tag = tag
+
+        def finish(self):
+            calls.append(self.tag)
+
+    class M(StateMachine):
+        idle = State(initial=True)
+        running = State()
+        done = State(final=True)
+        start = idle.to(running, **{sc["group"]: "finish"})
+        finish = running.to(done)
+    bad = []
+    with warnings.catch_warnings():
+        warnings.simplefilter("ignore")
+        sm = M(Mdl(), listeners=[L("ctor")])
+        sm.add_listener(L("late"))
+        if sc["copy"]:
+            sm = copy.deepcopy(sm)
+        try:
+            sm.send("start")
+        except Exception as e:  # noqa: BLE001
+            bad.append(repr(e))
+    if sorted(calls) != ["ctor", "late", "model"]:
+        bad.append(f"providers of `finish` called: {calls}")
+    if not bad and sm.current_state.id != "done":
+        bad.append("state " + sm.current_state.id)
+    return {"probe": "event_name", "bad": bad}
+
+
+def d25_probe(sc):
+    """`unless="blocked"` where the model says False and a listener passed to the constructor says True: the
+    guard does not hold on the listener, so the transition must not fire (as it does not when the same listener
+    is attached later with add_listener)"""
+    from statemachine import State, StateMachine
+    from statemachine.exceptions import TransitionNotAllowed
+
+    class Door(StateMachine):
+        closed = State(initial=True)
+        opened = State()
+        open = closed.to(opened, unless="blocked") | opened.to(closed)
+
+    class Mdl:
+        def __init__(self):
+            self.state = None
+            self.blocked = False
+
+    class Sensor:
+        blocked = True
+
+    def fires(sm):
+        try:
+            sm.send("open")
+            return True
+        except TransitionNotAllowed:
+            return False
+    with warnings.catch_warnings():
+        warnings.simplefilter("ignore")
+        late = Door(Mdl())
+        late.add_listener(Sensor())
+        r_late = fires(late)
+        r_ctor = fires(Door(Mdl(), listeners=[Sensor()]))
+    bad = []
+    if r_late:
+        bad.append("fired although the late listener is blocked")
+    if r_ctor:
+        bad.append("fired although the constructor listener is blocked (the late listener does block)")
+    return {"probe": "d25", "bad": bad}
+
+
 def run_impl(sc):
+    if sc.get("probe") == "d25":
+        return d25_probe(sc)
+    if sc.get("probe") == "expr_late":
+        return expr_late_probe(sc)
+    if sc.get("probe") == "event_name":
+        return event_name_probe(sc)
     if sc.get("probe") == "copy_attach":
         return copy_attach_probe(sc)
     if sc.get("probe") == "pair":
@@ -206,6 +362,12 @@ def render_source(sc):
     if sc.get("probe") == "copy_attach":
         return (f"# probe: a = M(listeners=[L()]); b = copy.{sc['first']}(a); x = L(); attach x to the {sc['side']} only; "
                 "deep / shallow copies of the other one are made and driven: x must never be invoked by them\n")
+    if sc.get("probe") == "d25":
+        return "# probe: " + " ".join(d25_probe.__doc__.split()) + "\n"
+    if sc.get("probe") == "expr_late":
+        return "# probe: " + " ".join(expr_late_probe.__doc__.split()) + f"\n# {sc}\n"
+    if sc.get("probe") == "event_name":
+        return "# probe: " + " ".join(event_name_probe.__doc__.split()) + f"\n# {sc}\n"
     if sc.get("probe") == "d11":
         return "# probe: listener with `async def after_go` added with add_listener to a machine without coroutine callbacks\n"
     return eng.render_source(sc) + (f"\n# probe: a second instance with other listeners is driven in between\n" if sc.get("probe") else "")
@@ -225,9 +387,16 @@ def generate(rng, tier):
         sc["probe"] = "pair"
         pr.append(sc)
     pr.append({"probe": "d11"})
+    pr.append({"probe": "d25"})
     for k in range(24):
         pr.append({"probe": "copy_attach", "seed": rng.randrange(10 ** 6), "first": ["copy", "deepcopy"][k % 2],
                    "side": ["copy", "original"][(k // 2) % 2]})
+    texts = ["level >= 2", "level > 1 and ready", "not blocked", "ready", "level == 2 or blocked", "level != 0"]
+    for k in range(12):
+        pr.append({"probe": "expr_late", "seed": rng.randrange(10 ** 6), "text": texts[k % len(texts)],
+                   "kind": ["cond", "unless"][(k // 6) % 2], "copy_first": k % 4 == 1, "copy_after": k % 4 == 2})
+    for k in range(6):
+        pr.append({"probe": "event_name", "group": ["before", "on", "after"][k % 3], "copy": k >= 3})
     scs += pr
     parts.append(("isolation pairs: two instances of one class with different listener objects driven alternately, "
                   "A's trace compared with A driven alone; + probe of a coroutine listener added to a sync machine; + probes "
@@ -256,7 +425,12 @@ def d11(sc, v):
     return sc.get("probe") == "d11"
 
 
-CLASSIFIERS = {"C12.coroutine_listener_added_to_sync_machine": d11}
+def d25(sc, v):
+    return sc.get("probe") == "d25"
+
+
+CLASSIFIERS = {"C12.coroutine_listener_added_to_sync_machine": d11,
+               "C12.unless_over_constructor_providers": d25}
 
 
 def extra_coverage(scs, obs, verdicts):
